@@ -18,15 +18,21 @@
   * `bp_pause_before_exec_trace`   (T1) an attached iteration that executes the instruction at a
         breakpointed address `a` has read at least one command, and the LAST command read in that
         iteration was a resuming command (continue / step / step into / step out) read with the
-        machine at PC = `a`.
-  * `bp_removed_never_pauses_trace` (T2) `Reached::Breakpoint` is printed by an iteration only if
-        the list holds a breakpoint at the PC at that moment; `no_bp_runs_on_trace`: with no
-        breakpoint at an executable PC a running status reads nothing and prints nothing.
+        machine at PC = `a`.  The invariant that replaces `Armed` is `Fresh` (`iter_fresh`).
+  * `bp_removed_never_pauses_trace` (T2) `Reached::Breakpoint` is printed by the interrupt check
+        of an iteration only if the list holds a breakpoint at the PC at that moment;
+        `bp_line_only_at_breakpoint_trace`: the same for EVERY line the iteration prints, provided
+        the assembler environment does not itself supply that text (`EnvClean`);
+        `no_bp_runs_on_trace`: with no breakpoint at an executable PC a running status reads
+        nothing and prints nothing.
   * `bp_exec_preceded_by_resume`, `bp_fires_every_arrival` (T3) on the event log of the session.
   * `break_directive_addresses` (T4) `newDbg` places the predefined breakpoints at
-        origin + relative position, in the same order.
+        origin + relative position, in the same order; `break_directive_addresses_src`: from the
+        source text (assembler model, `Proofs/ParseBreaks.lean`) through `from_raw` to the list.
+  Non-vacuity on a concrete one-instruction loop: `Props/C11Demo.lean`.
 -/
 import Lace.Props.C11
+import Lace.Proofs.ParseBreaks
 namespace Lace.C11
 open Lace Lace.Dbg Lace.Cmd Lace.DbgProofs
 
@@ -86,6 +92,9 @@ structure IterRec where
   bpsBefore : Breakpoints
   /-- lines printed by the bounds check and `check_interrupts`, newest first -/
   preSaid : List (List Char)
+  /-- every line the debugger printed in this iteration (interrupt check, then commands), newest
+  first -/
+  said : List (List Char)
   /-- commands read in this iteration, in order, each with the PC at which it was read -/
   reads : List Read
   /-- breakpoint list in force when `next_action` returns -/
@@ -108,6 +117,9 @@ def iterRec (env : Env) (att : Bool) (d : Dbg) (m : Machine) (w : World) : IterR
     executable := Run.checkPcBounds m == .eq && sigOf (m.read m.pc) != some .halt
     bpsBefore := d.bps
     preSaid := if att then newLines d.errRev (preamble d m).errRev else []
+    said := match C12.Iter.dbg? (iter env att d m w) with
+      | some d' => newLines d.errRev d'.errRev
+      | none => []
     reads := if att then nextReads env d m w else []
     bpsAfter := if att then
         match nextAction env d m w with
@@ -769,6 +781,308 @@ theorem no_bp_runs_on_trace (env : Env) (n : Nat) (initial m : Machine) (w : Wor
   subst this
   exact fun hb hx hs hso => iter_no_bp_runs_on env d m w hb hx hs hso
 
+/-! ### T2 for everything an iteration prints -/
+
+/-- The assembler environment never hands the debugger the text `Reached::Breakpoint` to print
+(as a refusal line of `eval`, or as the source text of a statement for `assembly`). -/
+def EnvClean (env : Env) : Prop :=
+  (∀ m w t lines, env.eval m w t = .refused lines → bpLine ∉ lines) ∧
+  (∀ i t, env.stmtText i = some t → t ≠ bpLine)
+
+/-- `d'` has printed some more lines than `d`, none of them `Reached::Breakpoint`. -/
+def Ext (d d' : Dbg) : Prop := ∃ new, d'.errRev = new ++ d.errRev ∧ bpLine ∉ new
+
+theorem Ext.refl (d : Dbg) : Ext d d := ⟨[], rfl, by simp⟩
+theorem Ext.of_eq {d d' : Dbg} (h : d'.errRev = d.errRev) : Ext d d' := ⟨[], by simp [h], by simp⟩
+theorem Ext.trans {a b c : Dbg} (h1 : Ext a b) (h2 : Ext b c) : Ext a c := by
+  obtain ⟨n1, e1, c1⟩ := h1
+  obtain ⟨n2, e2, c2⟩ := h2
+  refine ⟨n2 ++ n1, by rw [e2, e1, List.append_assoc], ?_⟩
+  intro h
+  rcases List.mem_append.mp h with h | h
+  · exact c2 h
+  · exact c1 h
+theorem Ext.sayL (d : Dbg) (l : List Char) (h : l ≠ bpLine) : Ext d (sayL d l) :=
+  ⟨[l], rfl, by intro hm; rcases List.mem_cons.mp hm with hm | hm; exact h hm.symm; cases hm⟩
+theorem Ext.say (d : Dbg) (s : String) (h : s.toList ≠ bpLine) : Ext d (say d s) := Ext.sayL d _ h
+
+theorem bpLine_no_space : ' ' ∉ bpLine := by unfold bpLine; decide
+theorem ne_bpLine_of_space {l : List Char} (h : ' ' ∈ l) : l ≠ bpLine := fun e => bpLine_no_space (e ▸ h)
+theorem ne_bpLine_of_head {c : Char} {l : List Char} (h : c ≠ 'R') : c :: l ≠ bpLine := by
+  intro e
+  unfold bpLine at e
+  have : (c :: l).head? = some 'R' := by rw [e]; decide
+  simp at this
+  exact h this
+
+theorem Ext.foldl_sayL (lines : List (List Char)) (h : bpLine ∉ lines) : ∀ d, Ext d (lines.foldl Dbg.sayL d) := by
+  induction lines with
+  | nil => exact fun d => Ext.refl d
+  | cons l ls ih =>
+    intro d
+    rw [List.foldl_cons]
+    exact (Ext.sayL d l (fun e => h (by rw [e]; exact List.mem_cons_self))).trans
+      (ih (fun hm => h (List.mem_cons_of_mem _ hm)) _)
+
+theorem Ext.foldl_bps (bs : Breakpoints) : ∀ d, Ext d (bs.foldl (fun d b => Dbg.sayL d ('x' :: hex4 b.address)) d) := by
+  induction bs with
+  | nil => exact fun d => Ext.refl d
+  | cons b rest ih =>
+    intro d
+    rw [List.foldl_cons]
+    exact (Ext.sayL d _ (ne_bpLine_of_head (by decide))).trans (ih _)
+
+theorem Ext.printRegisters (d : Dbg) (m : Machine) : Ext d (printRegisters d m) := by
+  unfold Dbg.printRegisters
+  have hf : ∀ (l : List Nat) (d : Dbg), Ext d (l.foldl (fun d i =>
+      Dbg.sayL d (['R'] ++ decNat i ++ [' ', 'x'] ++ hex4 (m.reg.toArray.getD i 0))) d) := by
+    intro l
+    induction l with
+    | nil => exact fun d => Ext.refl d
+    | cons i rest ih =>
+      intro d
+      rw [List.foldl_cons]
+      exact (Ext.sayL d _ (ne_bpLine_of_space (by simp))).trans (ih _)
+  exact ((hf _ d).trans (Ext.sayL _ _ (ne_bpLine_of_space (by simp)))).trans
+    (Ext.sayL _ _ (ne_bpLine_of_space (by simp)))
+
+theorem resolveLocation_err (env : Env) (orig : Word) (m : Machine) (l : MemLoc) (e : String)
+    (h : resolveLocation env orig m l = .error e) : e.toList ≠ bpLine := by
+  unfold resolveLocation at h
+  split at h
+  · cases h
+  · split at h
+    · cases h
+    · simp only [Except.error.injEq] at h; subst h; unfold bpLine; decide
+  · split at h
+    · simp only [Except.error.injEq] at h; subst h; unfold bpLine; decide
+    · split at h
+      · cases h
+      · simp only [Except.error.injEq] at h; subst h; unfold bpLine; decide
+
+theorem resolveUser_err (env : Env) (orig : Word) (m : Machine) (l : MemLoc) (e : String)
+    (h : resolveUser env orig m l = .error e) : e.toList ≠ bpLine := by
+  unfold resolveUser at h
+  split at h
+  · rename_i e' he
+    simp only [Except.error.injEq] at h; subst h
+    exact resolveLocation_err env orig m l _ he
+  · split at h
+    · cases h
+    · simp only [Except.error.injEq] at h; subst h; unfold bpLine; decide
+
+/-- No command prints `Reached::Breakpoint`. -/
+theorem runCommand_ext (env : Env) (henv : EnvClean env) (d : Dbg) (m : Machine) (w : World) (c : Command) :
+    ∀ d', (runCommand env d m w c).dbg? = some d' → Ext d d' := by
+  intro d' hd
+  have hb : Ext d (base d) := Ext.of_eq rfl
+  have L : ∀ s : String, s.toList ≠ bpLine → Ext d (say (base d) s) := fun s h => hb.trans (Ext.say _ s h)
+  cases c <;> simp only [runCommand] at hd
+  case help => simp [CmdResult.dbg?] at hd; subst hd; exact L _ (by unfold bpLine; decide)
+  case quit => simp [CmdResult.dbg?] at hd; subst hd; exact hb
+  case exit => simp [CmdResult.dbg?] at hd; subst hd; exact hb
+  case reset => simp [CmdResult.dbg?] at hd; subst hd; exact hb
+  case echo s =>
+    simp [CmdResult.dbg?] at hd; subst hd
+    exact hb.trans (Ext.sayL _ _ (ne_bpLine_of_head (by decide)))
+  case stepOver =>
+    split at hd
+    · simp [CmdResult.dbg?] at hd; subst hd; exact L _ (by unfold bpLine; decide)
+    · split at hd <;> (simp [CmdResult.dbg?] at hd; subst hd; exact Ext.of_eq rfl)
+  case stepInto cnt =>
+    split at hd
+    · simp [CmdResult.dbg?] at hd; subst hd; exact L _ (by unfold bpLine; decide)
+    · split at hd
+      · simp [CmdResult.dbg?] at hd
+      · simp [CmdResult.dbg?] at hd; subst hd; exact Ext.of_eq rfl
+  case stepOut =>
+    split at hd
+    · simp [CmdResult.dbg?] at hd; subst hd; exact L _ (by unfold bpLine; decide)
+    · split at hd <;> (simp [CmdResult.dbg?] at hd; subst hd)
+      · exact L _ (by unfold bpLine; decide)
+      · exact Ext.of_eq rfl
+  case continue_ =>
+    split at hd <;> (simp [CmdResult.dbg?] at hd; subst hd)
+    · exact L _ (by unfold bpLine; decide)
+    · exact Ext.of_eq rfl
+  case goto l =>
+    split at hd <;> (simp [CmdResult.dbg?] at hd; subst hd)
+    · rename_i e he; exact L _ (resolveUser_err _ _ _ _ e he)
+    · exact hb
+  case breakAdd l =>
+    split at hd
+    · rename_i e he
+      simp [CmdResult.dbg?] at hd; subst hd; exact L _ (resolveUser_err _ _ _ _ e he)
+    · split at hd <;> (simp [CmdResult.dbg?] at hd; subst hd)
+      · exact L _ (by unfold bpLine; decide)
+      · exact Ext.of_eq rfl
+  case breakRemove l =>
+    split at hd
+    · rename_i e he
+      simp [CmdResult.dbg?] at hd; subst hd; exact L _ (resolveUser_err _ _ _ _ e he)
+    · split at hd <;> (simp [CmdResult.dbg?] at hd; subst hd)
+      · exact Ext.of_eq rfl
+      · exact L _ (by unfold bpLine; decide)
+  case registers =>
+    simp [CmdResult.dbg?] at hd; subst hd
+    exact hb.trans (Ext.printRegisters _ m)
+  case breakList =>
+    split at hd <;> (simp [CmdResult.dbg?] at hd; subst hd)
+    · exact L _ (by unfold bpLine; decide)
+    · exact hb.trans (Ext.foldl_bps _ _)
+  case eval t =>
+    split at hd <;> simp [CmdResult.dbg?] at hd
+    · subst hd; exact hb
+    · rename_i lines hl
+      subst hd
+      exact hb.trans (Ext.foldl_sayL lines (henv.1 _ _ _ _ hl) _)
+    · subst hd; exact hb
+  case print l =>
+    cases l with
+    | reg r =>
+      simp [CmdResult.dbg?] at hd; subst hd
+      exact hb.trans (Ext.sayL _ _ (ne_bpLine_of_head (by decide)))
+    | mem l =>
+      simp only at hd
+      split at hd <;> (simp [CmdResult.dbg?] at hd; subst hd)
+      · rename_i e he; exact L _ (resolveLocation_err _ _ _ _ e he)
+      · exact hb.trans (Ext.sayL _ _ (ne_bpLine_of_head (by decide)))
+  case move l v =>
+    cases l with
+    | reg r => simp [CmdResult.dbg?] at hd; subst hd; exact hb
+    | mem l =>
+      simp only at hd
+      split at hd <;> (simp [CmdResult.dbg?] at hd; subst hd)
+      · rename_i e he; exact L _ (resolveUser_err _ _ _ _ e he)
+      · exact hb
+  case assembly l =>
+    split at hd
+    · rename_i e he
+      simp [CmdResult.dbg?] at hd; subst hd; exact L _ (resolveLocation_err _ _ _ _ e he)
+    · split at hd
+      · simp [CmdResult.dbg?] at hd; subst hd; exact hb
+      · split at hd
+        · rename_i t ht
+          split at hd <;> (simp [CmdResult.dbg?] at hd; subst hd)
+          · exact hb
+          · exact hb.trans (Ext.sayL _ _ (henv.2 _ _ ht))
+        · simp [CmdResult.dbg?] at hd; subst hd; exact hb
+
+/-- The status loop never prints `Reached::Breakpoint`. -/
+theorem actionLoop_ext (env : Env) (henv : EnvClean env) : ∀ (n : Nat) (d : Dbg) (m : Machine) (w : World)
+    (instr : Option Sig), ∀ d', NextResult.dbg? (actionLoop env n d m w instr) = some d' → Ext d d'
+  | 0, d, m, w, instr => by simp [actionLoop, NextResult.dbg?]
+  | n + 1, d, m, w, instr => by
+    intro d' hd
+    unfold actionLoop at hd
+    split at hd
+    · split at hd
+      · simp [NextResult.dbg?] at hd; subst hd; exact Ext.of_eq rfl
+      · rename_i c rest hc
+        have hstep : ∀ d1, (runCommand env { d with cmds := rest } m w c).dbg? = some d1 → Ext d d1 :=
+          fun d1 h1 => (Ext.of_eq (d := d) (d' := { d with cmds := rest }) rfl).trans
+            (runCommand_ext env henv _ m w c d1 h1)
+        split at hd
+        · rename_i d1 m1 w1 hr
+          exact (hstep d1 (by rw [hr]; rfl)).trans (actionLoop_ext env henv n d1 m1 w1 instr d' hd)
+        · rename_i a d1 m1 w1 hr
+          simp [NextResult.dbg?] at hd; subst hd; exact hstep _ (by rw [hr]; rfl)
+        · rename_i cd d1 m1 w1 hr
+          simp [NextResult.dbg?] at hd; subst hd; exact hstep _ (by rw [hr]; rfl)
+        · simp [NextResult.dbg?] at hd
+    · split at hd
+      · refine Ext.trans ?_ (actionLoop_ext env henv n _ m w instr d' hd)
+        split
+        · exact (Ext.say d _ (by unfold bpLine; decide)).trans (Ext.of_eq rfl)
+        · exact Ext.of_eq rfl
+      · simp [NextResult.dbg?] at hd; subst hd; exact Ext.refl d
+    · split at hd <;> (simp [NextResult.dbg?] at hd; subst hd; exact Ext.of_eq rfl)
+    · simp [NextResult.dbg?] at hd; subst hd; exact Ext.refl d
+    · split at hd <;> (simp [NextResult.dbg?] at hd; subst hd)
+      · exact (Ext.say d _ (by unfold bpLine; decide)).trans (Ext.of_eq rfl)
+      · exact Ext.refl d
+
+/-- One iteration: everything printed is the interrupt check's lines followed (in time) by lines
+that are not `Reached::Breakpoint` (an iteration that panics has no record of printed lines). -/
+theorem iter_said (env : Env) (henv : EnvClean env) (att : Bool) (d : Dbg) (m : Machine) (w : World) :
+    (iterRec env att d m w).said = [] ∨
+    ∃ post, (iterRec env att d m w).said = post ++ (iterRec env att d m w).preSaid ∧ bpLine ∉ post := by
+  cases hi : C12.Iter.dbg? (iter env att d m w) with
+  | none => exact Or.inl (by simp [iterRec, hi])
+  | some d' =>
+    right
+    cases att with
+    | false =>
+      refine ⟨[], ?_, by simp⟩
+      simp only [iterRec, hi, Bool.false_eq_true, if_false, List.append_nil]
+      have : d'.errRev = d.errRev := by
+        unfold iter at hi
+        simp only [Bool.false_eq_true, if_false] at hi
+        split at hi
+        · simp [C12.Iter.dbg?] at hi; rw [← hi]
+        · split at hi
+          · simp [C12.Iter.dbg?] at hi; rw [← hi]
+          · simp [C12.Iter.dbg?] at hi; rw [← hi]
+          · rcases C16.execOne_cases env false d m w with ⟨_, _, he⟩ | ⟨_, _, _, he⟩ | ⟨_, he⟩ <;>
+              (rw [he] at hi; simp [C12.Iter.dbg?] at hi)
+            · rw [← hi]
+            · rw [← hi]
+      rw [this]
+      exact newLines_append [] d.errRev
+    | true =>
+      -- the record after `next_action`, then possibly the execution bookkeeping (no printing)
+      have key : ∃ d1, NextResult.dbg? (nextAction env d m w) = some d1 ∧ d'.errRev = d1.errRev := by
+        unfold iter at hi
+        simp only [if_true] at hi
+        cases hn : nextAction env d m w with
+        | panic s => rw [hn] at hi; simp [C12.Iter.dbg?] at hi
+        | exit c d1 m1 w1 => rw [hn] at hi; simp [C12.Iter.dbg?] at hi; exact ⟨d1, rfl, by rw [hi]⟩
+        | action a d1 m1 w1 =>
+          rw [hn] at hi
+          refine ⟨d1, rfl, ?_⟩
+          cases a with
+          | stopDebugger => simp [C12.Iter.dbg?] at hi; rw [hi]
+          | exitProgram => simp [C12.Iter.dbg?] at hi; rw [hi]
+          | proceed =>
+            simp only at hi
+            split at hi
+            · simp [C12.Iter.dbg?] at hi; rw [hi]
+            · split at hi
+              · simp [C12.Iter.dbg?] at hi; rw [hi]
+              · rcases C16.execOne_cases env true
+                  { d1 with icount := if d1.icount < 4294967295 then d1.icount + 1 else d1.icount,
+                            nexec := d1.nexec + 1 } m1 w1 with ⟨_, _, he⟩ | ⟨_, _, _, he⟩ | ⟨_, he⟩ <;>
+                  (rw [he] at hi; simp [C12.Iter.dbg?] at hi)
+                · rw [← hi]
+                · rw [← hi]
+      obtain ⟨d1, hn, he⟩ := key
+      rw [nextAction_eq] at hn
+      obtain ⟨post, hp, hc⟩ := actionLoop_ext env henv _ _ m w _ d1 hn
+      refine ⟨post, ?_, hc⟩
+      obtain ⟨pre, hpre, _⟩ := preamble_said d m
+      simp only [iterRec, hi, if_true]
+      rw [he, hp, hpre, newLines_append, ← List.append_assoc, newLines_append]
+
+/-- **C11 (T2, every line) — whole sessions.** Provided the assembler environment itself does not
+supply the text (`EnvClean`: no `eval` refusal line and no statement source text is literally
+`Reached::Breakpoint`), NOTHING an iteration prints — interrupt check, commands, status loop — is
+`Reached::Breakpoint` unless the list holds a breakpoint at the PC when the iteration starts. -/
+theorem bp_line_only_at_breakpoint_trace (env : Env) (henv : EnvClean env) (n : Nat) (initial m : Machine)
+    (w : World) (bpsRel : List Word) (cmds : List Command) :
+    ∀ r ∈ runTrace env n true (newDbg initial bpsRel cmds) m w,
+      bpGet r.bpsBefore r.pc = none → bpLine ∉ r.said := by
+  intro r hr hnone hin
+  have := runTrace_forall env (fun r => bpLine ∈ r.said → (bpGet r.bpsBefore r.pc).isSome)
+    (fun att d m w h => by
+      rcases iter_said env henv att d m w with h0 | ⟨post, hp, hc⟩
+      · rw [h0] at h; cases h
+      rw [hp] at h
+      rcases List.mem_append.mp h with h | h
+      · exact absurd h hc
+      · exact iter_bp_line env att d m w h) n true _ m w r hr hin
+  rw [hnone] at this
+  cases this
+
 /-! ### T3: the event log of a session -/
 
 /-- Events of a session, in order of occurrence. -/
@@ -914,5 +1228,107 @@ theorem bp_fires_every_arrival (env : Env) (n : Nat) (initial m : Machine) (w : 
     simp only [List.getLast?_append, List.getLast?_singleton, Option.some_or] at this
     simp only [Option.some.injEq] at this
     rw [List.concat_eq_append, this]
+
+/-! ### T4: `.break` directives become breakpoints at origin + index -/
+
+/-- **C11 (T4, debugger side) — `Debugger::new` / `Breakpoints::with_orig`.** The debugger starts
+with exactly one predefined breakpoint per relative position handed over by the assembler, in the
+same order, at address origin + position; a breakpoint is found at `a` iff `a` is origin + one of
+the positions; nothing is marked as "just paused on". -/
+theorem break_directive_addresses (initial : Machine) (bpsRel : List Word) (cmds : List Command) :
+    (newDbg initial bpsRel cmds).bps =
+      bpsRel.map (fun i => { address := initial.pc + i, predefined := true }) ∧
+    (∀ a, (bpGet (newDbg initial bpsRel cmds).bps a).isSome ↔ ∃ i ∈ bpsRel, a = initial.pc + i) ∧
+    (newDbg initial bpsRel cmds).curBp = none ∧ (newDbg initial bpsRel cmds).status = .wait := by
+  have h1 : (newDbg initial bpsRel cmds).bps =
+      bpsRel.map (fun i => { address := initial.pc + i, predefined := true }) := by
+    simp only [newDbg]
+    apply List.map_congr_left
+    intro i _
+    rw [BitVec.add_comm]
+  refine ⟨h1, ?_, rfl, rfl⟩
+  intro a
+  rw [h1]
+  simp only [bpGet, List.find?_isSome, List.mem_map]
+  constructor
+  · rintro ⟨b, ⟨i, hi, rfl⟩, hb⟩
+    exact ⟨i, hi, (eq_of_beq hb).symm⟩
+  · rintro ⟨i, hi, rfl⟩
+    exact ⟨_, ⟨i, hi, rfl⟩, by simp⟩
+
+theorem sorted_of_incr : ∀ (l : Breakpoints), (l.map (fun b => b.address.toNat)).Pairwise (· < ·) → Sorted l
+  | [], _ => trivial
+  | [_], _ => trivial
+  | a :: b :: rest, h => by
+    simp only [List.map_cons] at h
+    have h1 := List.pairwise_cons.mp h
+    exact ⟨BitVec.lt_def.mpr (h1.1 _ List.mem_cons_self), sorted_of_incr (b :: rest) h1.2⟩
+
+/-- **C11 (T4, end to end) — from the source text to the debugger's list.** Assemble any source
+text; load the image (`from_raw` accepts it: origin + number of words ≤ 65,535); create the
+debugger with the assembler's `.break` list.  Then the addresses are origin + index WITHOUT wrap
+(the checked `+=` of `with_orig` cannot overflow), index ranging exactly over the statement counts
+at which the parser met a `.break` (index of the next statement; number of statements for a
+trailing `.break`; one entry for a doubled `.break`), all marked predefined, and the list is
+sorted and free of duplicates from the start. -/
+theorem break_directive_addresses_src (feat : Option Bool) (tbl : Asm.SymTab) (src : List Char)
+    (img : Asm.Image) (tbl' : Asm.SymTab) (h : Asm.assembleWith feat tbl src = (.ok img, tbl'))
+    (loaded : Machine) (hload : Run.fromRaw (img.orig.getD 0x3000#16 :: img.words) = .ok loaded)
+    (cmds : List Command) :
+    let d := newDbg loaded (img.bps.map (BitVec.ofNat 16)) cmds
+    loaded.pc = img.orig.getD 0x3000#16 ∧
+    d.bps.map (fun b => b.address.toNat) = img.bps.map (fun i => loaded.pc.toNat + i) ∧
+    (∀ b ∈ d.bps, b.predefined = true) ∧ Sorted d.bps ∧
+    (∀ a : Word, (bpGet d.bps a).isSome ↔
+      ∃ i ∈ sourceBreaks feat tbl src, a.toNat = loaded.pc.toNat + i) := by
+  obtain ⟨a1, a2, a3, a4⟩ := assemble_breaks feat tbl src img tbl' h
+  -- what `from_raw` checked
+  have hfit : loaded.pc = img.orig.getD 0x3000#16 ∧ loaded.pc.toNat + img.words.length ≤ 65535 := by
+    unfold Run.fromRaw at hload
+    simp only [List.length_cons] at hload
+    split at hload
+    · cases hload
+    · rename_i hgt
+      split at hload
+      · simp only [Run.LoadResult.ok.injEq] at hload
+        subst hload
+        simp only [BitVec.ofNat_toNat, BitVec.setWidth_eq]
+        refine ⟨trivial, ?_⟩
+        omega
+      · cases hload
+  obtain ⟨hpc, hfit⟩ := hfit
+  have haddr : ∀ i ∈ img.bps, (BitVec.ofNat 16 i + loaded.pc).toNat = loaded.pc.toNat + i := by
+    intro i hi
+    have := a3 i hi
+    rw [BitVec.toNat_add, BitVec.toNat_ofNat]
+    rw [Nat.mod_eq_of_lt (show i < 2 ^ 16 by omega), Nat.mod_eq_of_lt (by omega), Nat.add_comm]
+  have hmap : (newDbg loaded (img.bps.map (BitVec.ofNat 16)) cmds).bps.map (fun b => b.address.toNat) =
+      img.bps.map (fun i => loaded.pc.toNat + i) := by
+    simp only [newDbg, List.map_map]
+    apply List.map_congr_left
+    intro i hi
+    exact haddr i hi
+  refine ⟨hpc, hmap, ?_, ?_, ?_⟩
+  · intro b hb
+    simp only [newDbg, List.map_map, List.mem_map] at hb
+    obtain ⟨i, _, rfl⟩ := hb
+    rfl
+  · apply sorted_of_incr
+    rw [hmap]
+    rw [List.pairwise_map]
+    exact a1.imp (fun h => by omega)
+  · intro a
+    simp only [bpGet, List.find?_isSome, newDbg, List.map_map, List.mem_map]
+    constructor
+    · rintro ⟨b, ⟨i, hi, rfl⟩, hb⟩
+      refine ⟨i, (a2 i).mp hi, ?_⟩
+      rw [← eq_of_beq hb]
+      exact haddr i hi
+    · rintro ⟨i, hi, ha⟩
+      have hi' := (a2 i).mpr hi
+      refine ⟨_, ⟨i, hi', rfl⟩, ?_⟩
+      simp only [Function.comp, beq_iff_eq]
+      apply BitVec.eq_of_toNat_eq
+      rw [haddr i hi', ha]
 
 end Lace.C11
